@@ -67,7 +67,8 @@ RULE = (
     "and an Address parameter; 0-3 locals chained on each other; input `source` (optionally carrying a record datum) "
     "and optionally a second input with a record datum; 1-3 payment outputs with multi-asset amounts "
     "(Ada / asset constructor / AnyAsset sums over integer expressions, chains X(x) - X(y) + X(z) that pass below zero on "
-    "the way, list positions inside and outside the list), optional datums (records with explicit "
+    "the way, list positions inside and outside the list), a third of the sources multi-UTxO (two UTxOs with equal "
+    "lovelace, tokens split), references half of which name a spent UTxO, optional datums (records with explicit "
     "fields in any order and spread from an input, variants, lists, maps, unit, scalars, property access on input "
     "datums, list indexing); a change output `source - a - b - fees` associated three different ways; optional "
     "mint/burn, validity (arbitrary integer expressions, so partly out of range), signers, metadata, reference "
